@@ -44,6 +44,8 @@ type sdState struct {
 	rec   *tr.Rec
 	conns map[string]int // client local address -> connection id
 	hits  map[string]int
+	// connections whose recv goroutine reported its close (hook tcp.recv.closed) / whose client saw the end of the stream
+	closed, eof map[int]bool
 }
 
 var sd = &sdState{hits: map[string]int{}}
@@ -86,6 +88,9 @@ func sdHook(point string, a ...interface{}) {
 	case "tcp.recv.closed":
 		if cid != 0 {
 			rec.Emit("ConnClosed", "c", cid)
+			sd.mu.Lock()
+			sd.closed[cid] = true
+			sd.mu.Unlock()
 		}
 	case "tcp.accept.exit":
 		rec.Emit("AcceptExit")
@@ -108,6 +113,7 @@ func sdScenario(rng *rand.Rand, n, q int, ctxTimeout time.Duration) []tr.Ev {
 	sd.mu.Lock()
 	sd.rec = rec
 	sd.conns = map[string]int{}
+	sd.closed, sd.eof = map[int]bool{}, map[int]bool{}
 	sd.mu.Unlock()
 	rec.Emit("Config", "n", n, "q", q, "conns", nconn)
 	served := make(chan struct{})
@@ -126,6 +132,7 @@ func sdScenario(rng *rand.Rand, n, q int, ctxTimeout time.Duration) []tr.Ev {
 		readers.Add(1)
 		go func(c int, k net.Conn) { // client reader: responses, close message, EOF
 			defer readers.Done()
+			defer func() { sd.mu.Lock(); sd.eof[c] = true; sd.mu.Unlock() }()
 			hdr := make([]byte, 4)
 			for {
 				if _, err := io.ReadFull(k, hdr); err != nil {
@@ -192,6 +199,22 @@ func sdScenario(rng *rand.Rand, n, q int, ctxTimeout time.Duration) []tr.Ev {
 	select {
 	case <-served:
 	case <-time.After(1500 * time.Millisecond):
+	}
+	// the hook after conn.Close() runs after the client can see the end of the stream: wait for the report of every
+	// connection the client saw closed (the recv goroutine's exit path ticks every 500 ms)
+	for i := 0; i < 300; i++ {
+		sd.mu.Lock()
+		missing := 0
+		for c := range sd.eof {
+			if !sd.closed[c] {
+				missing++
+			}
+		}
+		sd.mu.Unlock()
+		if missing == 0 {
+			break
+		}
+		time.Sleep(10 * time.Millisecond)
 	}
 	time.Sleep(20 * time.Millisecond)
 	sd.mu.Lock()
